@@ -413,17 +413,21 @@ def exit_delivered_before_every_line(chk, tier):
         open(drv, "w").write(_DELIVERY_DRIVER)
         p = subprocess.Popen([PY, drv, rel, str(line), go, pidf, "run", "//:x", "-j", "2"], cwd=root, env=dict(os.environ, PYTHONPATH=SRC), stdout=subprocess.PIPE, stderr=subprocess.PIPE,
                              start_new_session=True)
-        # a line that is never reached while b runs: release b after a while so that the run can end
-        t0 = time.time()
-        while p.poll() is None and time.time() - t0 < 3.0:
+        # a line that is never reached while b runs: release b some time AFTER a has finished (whatever the load of the machine), so that the run can end
+        t0, t_a = time.time(), None
+        while p.poll() is None and not os.path.exists(go) and time.time() - t0 < 60.0:
+            if t_a is None and os.path.exists(log) and "a" in open(log).read().split():
+                t_a = time.time()
+            if t_a is not None and time.time() - t_a > 3.0:
+                break
             time.sleep(0.05)
         if p.poll() is None and not os.path.exists(go):
             open(go, "w").close()
-        rc, text, timed_out = _finish(p, 25)
+        rc, text, timed_out = _finish(p, 40)
         delivered = os.path.exists(go + ".delivered")
         ran = open(log).read().split() if os.path.exists(log) else []
         if timed_out:
-            return (pt, delivered, "cond run did not terminate within 25 s after b's exit was delivered before %s:%d (%s); tasks that ran: %r" % (rel, line, fn, ran))
+            return (pt, delivered, "cond run did not terminate within 40 s after b's exit was delivered before %s:%d (%s); tasks that ran: %r" % (rel, line, fn, ran))
         if rc != 0 or sorted(ran) != ["a", "b", "x"]:
             return (pt, delivered, "exit status %s, tasks that ran %r (expected a, b and x once each) after b's exit was delivered before %s:%d (%s): %s" % (rc, ran, rel, line, fn, text[-200:]))
         return (pt, delivered, None)
